@@ -253,6 +253,7 @@ struct Ctx
         p.maxSuccess = n;
         p.maxSize = max_size;
         p.maxDiscardRatio = 50;
+        p.disableShrinking = no_shrink;
         ::rc::detail::TestMetadata md;
         md.id = property + "/" + sub->name + "/" + tag;
         md.description = md.id;
@@ -293,6 +294,7 @@ struct Ctx
 #endif
     int harness_errors{0};
     bool fresh_thread{false};
+    bool no_shrink{false};  // rc(): keep the first failing case as generated (for failures that depend on a thread schedule: shrinking re-runs are not informative)
     bool seq_mode{false};   // rc(): a quarter of the generated cases become short case sequences (set together with fresh_thread)
 };
 inline bool& fresh_thread_default() { static bool v = false; return v; }
